@@ -372,7 +372,11 @@ mut('C13', 'signal_name_not_validated', PA, """		sig := unix.SignalNum(sigDef)
 		if sig == 0 {
 			return fmt.Errorf("%w: %s", errInvalidSignal, sigDef)
 		}
-		step.SignalOnStop = sigDef""", """		step.SignalOnStop = sigDef""")
+		step.SignalOnStop = sigDef""", """		sig := unix.SignalNum(sigDef)
+		if sig == 0 && len(sigDef) == 0 {
+			return fmt.Errorf("%w: %s", errInvalidSignal, sigDef)
+		}
+		step.SignalOnStop = sigDef""")
 mut('C13', 'nothing_to_execute_check_dropped', BU, """	if step.Command == "" && step.ExecutorConfig.Type == "" &&
 		step.SubWorkflow == nil {
 		return nil, errStepCommandOrCallRequired
@@ -436,6 +440,78 @@ mut('C19', 'positional_params_exported_again', PA, """		if !options.noEval {
 			}
 		}""", """		if err = os.Setenv(strconv.Itoa(i+1), strParam); err != nil {
 			return
+		}""")
+
+# ---- C18 definitions
+DS = 'internal/persistence/local/dag_store.go'
+mut('C18', 'create_existence_test_dropped', DS, """	if exists(loc) {
+		return "", fmt.Errorf("%w: %s", errDAGFileAlreadyExists, loc)
+	}
+	// nolint: gosec
+	return name, os.WriteFile(loc, spec, 0644)""", """	// nolint: gosec
+	return name, os.WriteFile(loc, spec, 0644)""")
+mut('C18', 'rename_existence_test_dropped', DS, """	if exists(newLoc) {
+		return fmt.Errorf("%w: %s", errDAGFileAlreadyExists, newLoc)
+	}
+	return os.Rename(oldLoc, newLoc)""", """	return os.Rename(oldLoc, newLoc)""")
+mut('C18', 'save_before_validation', DS, """	// validation
+	_, err := dag.LoadYAML(spec)
+	if err != nil {
+		return err
+	}
+	loc, err := d.fileLocation(name)
+	if err != nil {
+		return err
+	}
+	if !exists(loc) {
+		return fmt.Errorf("%w: %s", errDOGFileNotExist, loc)
+	}
+	err = writeFileAtomic(loc, spec)
+	if err != nil {
+		return err
+	}""", """	loc, err := d.fileLocation(name)
+	if err != nil {
+		return err
+	}
+	if !exists(loc) {
+		return fmt.Errorf("%w: %s", errDOGFileNotExist, loc)
+	}
+	err = writeFileAtomic(loc, spec)
+	if err != nil {
+		return err
+	}
+	// validation
+	if _, err := dag.LoadYAML(spec); err != nil {
+		return err
+	}""")
+mut('C18', 'save_writes_in_place_again', DS, """	err = writeFileAtomic(loc, spec)
+	if err != nil {
+		return err
+	}""", """	err = os.WriteFile(loc, spec, defaultPerm)
+	if err != nil {
+		return err
+	}""")
+mut('C18', 'atomic_save_renames_after_failed_write', DS, """	if err == nil {
+		err = os.Rename(tmpName, file)
+	}""", """	if renameErr := os.Rename(tmpName, file); err == nil {
+		err = renameErr
+	}""")
+mut('C18', 'history_not_renamed_with_the_definition', CL, """	historyStore := e.dataStore.HistoryStore()
+	return historyStore.Rename(oldDAG.Location, newDAG.Location)""", """	_ = oldDAG
+	_ = newDAG
+	return nil""")
+mut('C18', 'history_rename_arguments_swapped', CL, """	return historyStore.Rename(oldDAG.Location, newDAG.Location)""", """	return historyStore.Rename(newDAG.Location, oldDAG.Location)""")
+mut('C18', 'delete_removes_definition_even_if_history_removal_failed', CL, """	err := e.dataStore.HistoryStore().RemoveAll(loc)
+	if err != nil {
+		return err
+	}
+	dagStore := e.dataStore.DAGStore()""", """	_ = e.dataStore.HistoryStore().RemoveAll(loc)
+	dagStore := e.dataStore.DAGStore()""")
+mut('C18', 'history_rename_removes_the_old_files', JD, """		if err := os.Rename(m, filepath.Join(newDir, f)); err != nil {
+			log.Printf("failed to rename %s to %s: %s", m, f, err)
+		}""", """		if err := os.Rename(m, filepath.Join(newDir, f)); err != nil {
+			log.Printf("failed to rename %s to %s: %s", m, f, err)
+			_ = os.Remove(m)
 		}""")
 
 # ---- C09 daemon
